@@ -421,9 +421,11 @@ impl Typer {
             _ => self.infer_expr(genv, local_env, diagnostics, e),
         };
 
+        // the expression itself keeps its own type; the coercion to `dyn Tr` is recorded
+        // separately and wrapped around it when the typed tree is built
+        self.record_expr_result(e, &expr_tast);
         let expr_tast = self.coerce_to_expected_dyn(genv, diagnostics, e, expr_tast, expected);
         self.push_constraint(Constraint::TypeEqual(expr_tast.get_ty(), expected.clone()));
-        self.record_expr_result(e, &expr_tast);
         expr_tast
     }
 
